@@ -46,7 +46,7 @@ func GenProgram(b Bias) *rapid.Generator[Program] {
 			minL = 1
 		}
 		p := Program{
-			LaneSize:  rapid.IntRange(minL, 4).Draw(t, "laneSize"),
+			LaneSize:  rapid.OneOf(rapid.IntRange(minL, 4), rapid.IntRange(minL, 4), rapid.IntRange(minL, 4), rapid.IntRange(minL, 4), rapid.SampledFrom([]int{8, 31, 32, 33, 40, 64, 65})).Draw(t, "laneSize"),
 			QueueSize: rapid.IntRange(0, 3).Draw(t, "queueSize"),
 			Timeout:   rapid.SampledFrom([]time.Duration{time.Millisecond, 100 * time.Millisecond, 100 * time.Millisecond, time.Second, time.Second, 0, -time.Second}).Draw(t, "timeout"),
 			LateGates: rapid.IntRange(0, 3).Draw(t, "lateGates") == 0,
@@ -89,6 +89,9 @@ func GenProgram(b Bias) *rapid.Generator[Program] {
 				op.Lane = rapid.IntRange(0, p.LaneSize-1).Draw(t, "lane")
 				if (b.PinFirst || b.LaneFocus) && rapid.IntRange(0, 3).Draw(t, "toFocus") > 0 {
 					op.Lane = focus
+				} else if p.LaneSize > 4 && rapid.IntRange(0, 2).Draw(t, "highLane") > 0 {
+					// wide lanes: keep most of the traffic on the two highest-numbered lanes so that they get busy and queue up
+					op.Lane = p.LaneSize - 1 - rapid.IntRange(0, 1).Draw(t, "fromTop")
 				}
 				op.Task = genTask(t, b)
 			case OpOpen:
